@@ -303,7 +303,19 @@ def run_case(ctx, case):
         o, m = run.choose(rng, rng.choice(["random_ready", "latest_start", "one_job_first", "round_robin"]))
         run.dispatch(o, m)
     S = run.d.schedule
-    check_solved(ctx, r, S, S.makespan(), True, "dispatcher-built")
+    where = "dispatcher-built"
+    if case["seed"] % 20 == 7 and inst.get("cls") != "fractional" and run.r.num_ops <= 40:
+        # the schedule was looked at (Gantt chart) before it is encoded
+        import matplotlib.pyplot as plt
+        from job_shop_lib.visualization import plot_gantt_chart
+        mk_before = run.r.makespan()
+        plot_gantt_chart(S)
+        plt.close("all")
+        where = "dispatcher-built, after a Gantt chart of it was drawn"
+        ctx.count("solved_after_the_schedule_was_drawn")
+        check_solved(ctx, r, S, mk_before, True, where)
+    else:
+        check_solved(ctx, r, S, S.makespan(), True, where)
     ctx.count("solved_dispatcher_built")
     # hand-delayed but feasible schedule: every start shifted by a non-decreasing amount in time
     shift = rng.randint(1, 5)
